@@ -48,7 +48,7 @@ Proof. unfold pmf_total, bernoulli_pmf. cbn [map fst]. rewrite !qsum_cons, qsum_
 Lemma bernoulli_moment_sum p k : (1 <= k)%nat -> bernoulli_get_moment p k = pmf_moment (bernoulli_pmf p) k.
 Proof.
   intros Hk. destruct k as [|k]; [lia|].
-  unfold bernoulli_get_moment, pmf_moment, bernoulli_pmf. cbn [map fst snd].
+  unfold bernoulli_get_moment, pmf_moment, bernoulli_pmf. cbv zeta. cbn [Nat.eqb map fst snd].
   rewrite !qsum_cons, qsum_nil, qpow_0_S, qpow_1. ring.
 Qed.
 
